@@ -533,6 +533,7 @@ class Interp:
                     "Ellipsis": Ellipsis,
                     "open": OpaqueModule("open"),
                     "locals": OpaqueModule("locals"),
+                    "vars": self._b_vars,
                 }
             )
             self._builtins = b
@@ -566,6 +567,14 @@ class Interp:
         if isinstance(a, type) and isinstance(b, type):
             return issubclass(a, b)
         raise Unsupported("issubclass")
+
+    def _b_vars(self, o):
+        """vars(obj): the instance dictionary (interpreted objects: their field table)"""
+        if isinstance(o, Obj):
+            return o.fields
+        if hasattr(o, "sym_vars"):
+            return o.sym_vars(self)
+        return vars(o)
 
     def _b_hasattr(self, o, name):
         try:
@@ -783,6 +792,10 @@ class Interp:
             return
         if isinstance(o, ClassObj):
             o.ns[name] = v
+            return
+        if not isinstance(o, Sym) and hasattr(o, "__dict__") and not hasattr(o, "sym_getattr"):
+            # a plain native object supplied by a contract (no symbolic hooks): ordinary attribute assignment
+            setattr(o, name, self._pycallable(v) if isinstance(v, (Closure, BoundMethod)) else v)
             return
         raise Unsupported(f"setattr on {type(o).__name__}")
 
@@ -1043,6 +1056,10 @@ class Interp:
                 o = self.eval(t.value, env, module)
                 if isinstance(o, Obj):
                     o.fields.pop(t.attr, None)
+                elif hasattr(o, "sym_delattr"):
+                    o.sym_delattr(self, t.attr)
+                elif not hasattr(o, "sym_getattr"):
+                    delattr(o, t.attr)
                 else:
                     raise Unsupported("del attribute")
             else:
